@@ -283,5 +283,53 @@ func ruleQ2(c *Ctx, id string) {
 	a, b := extract(mp), extract(get)
 	R.Check(a.hi != "" && a.hi == b.hi, id, "kvs|upper key bound agrees", P.Pos(get.Pos()), "MultiPut and Get compare the key with the store size in the same way", "both reject key "+a.hi+" sz", fmt.Sprintf("MultiPut rejects key %s sz, Get rejects key %s sz: a key one side accepts is refused (or crashes) on the other", a.hi, b.hi))
 	R.Check(a.lo != "" && a.lo == b.lo, id, "kvs|lower key bound agrees", P.Pos(get.Pos()), "MultiPut and Get compare the key with LOGSIZE in the same way", "both reject key "+a.lo+" LOGSIZE", fmt.Sprintf("MultiPut: %s, Get: %s", a.lo, b.lo))
-	_ = token.ADD
+	// and the predicates refuse: what touches the journal (the write of a pair, the read of a key) lies on the
+	// accepting side of both comparisons - an out-of-range key addresses the log or a block beyond the store
+	logsize := constOfPkg(P, jrnlPath+"/common", "LOGSIZE")
+	for _, fn := range []*ssa.Function{mp, get} {
+		n := 0
+		for _, b := range fn.Blocks {
+			for _, in := range b.Instrs {
+				g := staticCallee(in)
+				if g == nil || (g != c.V.OverWrite && g.Name() != "ReadBuf") {
+					continue
+				}
+				if _, isC := in.(*ssa.Call); !isC {
+					continue
+				}
+				n++
+				below := guardedBy(fn, b, func(cd Cond) (bool, bool) {
+					if cd.X == nil || cd.Y == nil {
+						return false, false
+					}
+					if _, fl, _, _ := loadedField(cd.Y); fl != "sz" {
+						return false, false
+					}
+					switch cd.Op {
+					case token.LSS:
+						return true, true
+					case token.GEQ:
+						return true, false
+					}
+					return false, false
+				})
+				above := guardedBy(fn, b, func(cd Cond) (bool, bool) {
+					if cd.X == nil || cd.Y == nil {
+						return false, false
+					}
+					if k, isk := constIntDeep(cd.Y); !isk || k != logsize {
+						return false, false
+					}
+					switch cd.Op {
+					case token.GEQ:
+						return true, true
+					case token.LSS:
+						return true, false
+					}
+					return false, false
+				})
+				R.Check(below && above, id, fmt.Sprintf("kvs.%s|journal access#%d only for keys in range", fn.Name(), n), P.Pos(in.Pos()), "the access lies on the side key < sz and on the side key >= LOGSIZE", "dominated by both accepting edges", "the range test no longer keeps an out-of-range key from the journal: a put over a block of the write-ahead log (key < LOGSIZE) destroys the log, a key >= sz reads or writes beyond the store")
+			}
+		}
+	}
 }
